@@ -411,3 +411,28 @@ def _alias_sources(v):
         yield v
     elif isinstance(v, ast.Call) and isinstance(v.func, ast.Attribute) and v.func.attr in ACCESSORS:
         yield v
+
+
+def _element_alias_sources(v, depth=1):
+    """(expression, depth): objects stored INSIDE a fresh container display / constructor - `[X, dict()]`, `(X,)`, `{k: X}`, `list((X, ...))`:
+    the container is fresh, its element is not; a mutation reaches X only `depth` levels below the container."""
+    if isinstance(v, (ast.List, ast.Tuple, ast.Set)):
+        for e in v.elts:
+            e = e.value if isinstance(e, ast.Starred) else e
+            for c in _alias_sources(e):
+                yield c, depth
+            yield from _element_alias_sources(e, depth + 1)
+    elif isinstance(v, ast.Dict):
+        for e in v.values:
+            for c in _alias_sources(e):
+                yield c, depth
+            yield from _element_alias_sources(e, depth + 1)
+    elif isinstance(v, ast.Call) and isinstance(v.func, ast.Name) and v.func.id in ("list", "tuple", "dict", "set", "deque") and v.args:
+        for a in v.args:
+            yield from _element_alias_sources(a, depth)
+    elif isinstance(v, ast.IfExp):
+        yield from _element_alias_sources(v.body, depth)
+        yield from _element_alias_sources(v.orelse, depth)
+    elif isinstance(v, ast.BinOp) and isinstance(v.op, ast.Add):
+        yield from _element_alias_sources(v.left, depth)
+        yield from _element_alias_sources(v.right, depth)
